@@ -223,6 +223,15 @@ func c17Pair(c *rt.Ctx, fsType string, h int) {
 		}
 		lcwd, _ := lv.Getwd()
 		wcwd, _ := wv.Getwd()
+		if _, err := lv.Stat(lcwd); err != nil {
+			// the current directory (or an ancestor) was removed or renamed: what relative paths - and "." itself, which
+			// EvalSymlinks only looks up on Windows - mean from here on is outside the property. Both go back to the root.
+			_ = lv.Chdir("/")
+			_ = wv.Chdir(avfs.FromUnixPath(wv, "/"))
+			c.Rep.Count("cwd_resyncs_after_removal", 1)
+			lcwd, _ = lv.Getwd()
+			wcwd, _ = wv.Getwd()
+		}
 		if c17Unix(wv, wcwd) != lcwd {
 			c.Disagree(fmt.Sprintf("%s|Getwd|cwd-differs", fsType), fmt.Sprintf("%s: after %v the current directories are %q and %q", fsType, hist[max(0, len(hist)-3):], lcwd, wcwd), replay())
 			return
